@@ -63,6 +63,11 @@ RULE = ("random op sequences on a world of several vectors sharing arrays; a cas
 TRUSTED = ["NumPy array semantics used by vector.py (np.hstack, arr[:, idx], arr[:, j] = x, copy.deepcopy memo)",
            "float64 arithmetic is exact on the generated quarter-integer values (scale bounded by construction)"]
 ASSUMPTIONS = [
+    "every int / list index of every operation is drawn over spellings that denote the same index (Python int, np.int64, "
+    "np.int32, np.uint8/int16, lists of NumPy ints, int64/int32/uint8 ndarrays, tuple, range) while the model sees the "
+    "plain int / list, so result, error kind and state must equal the plain form; bool (0/1) and 0-d integer arrays are "
+    "drawn only on the paths where the code consumes them as Python list indices (all-int __getitem__ / single-cell "
+    "__setitem__): elsewhere the code rejects them with TypeError, which is not modelled and not claimed",
     "the property setters shape/fields/units are not among the operations the statement lists: they are modelled outside "
     "the op alphabet (Props: fields_setter_counterexample, shape_setter_counterexample) and only tied to the code by a "
     "small correspondence stream that ends a sequence; no predicate is evaluated on them",
@@ -264,13 +269,73 @@ class World:
 # ---------------------------------------------------------------------------------------
 # executing one op on the real class
 
+INT_FORMS = ["int", "i64", "i32", "u8", "0d", "bool"]
+SEQ_FORMS = ["list", "lnp", "a64", "a32", "au8", "tuple", "range"]
+
+
 def to_index(ix):
+    """the Python object for an index; `form` picks one of the spellings that denote the SAME index (the model
+    only ever sees the plain int / list): NumPy integer scalars, 0-d integer arrays, bool for 0/1; tuples, ranges,
+    integer ndarrays of several widths and lists of NumPy integers for index lists"""
     if "i" in ix:
-        return int(ix["i"])
+        k, f = int(ix["i"]), ix.get("form", "int")
+        if f == "i64":
+            return np.int64(k)
+        if f == "i32":
+            return np.int32(k)
+        if f == "u8":
+            return np.uint8(k) if 0 <= k < 256 else np.int16(k)
+        if f == "0d":
+            return np.array(k)
+        if f == "bool" and k in (0, 1):
+            return bool(k)
+        return k
     if "l" in ix:
-        return np.array(ix["l"], dtype=int) if ix.get("np") else list(ix["l"])
+        l, f = list(ix["l"]), ix.get("form", "a64" if ix.get("np") else "list")
+        if f == "lnp":
+            return [np.int64(x) for x in l]
+        if f == "a64":
+            return np.array(l, dtype=np.int64)
+        if f == "a32":
+            return np.array(l, dtype=np.int32)
+        if f == "au8":
+            return np.array(l, dtype=np.uint8 if all(0 <= x < 256 for x in l) else np.int16)
+        if f == "tuple" and l:
+            return tuple(l)
+        if f == "range" and l:
+            step = (l[1] - l[0]) if len(l) > 1 else 1
+            if step != 0 and all(l[i + 1] - l[i] == step for i in range(len(l) - 1)):
+                return range(l[0], l[-1] + (1 if step > 0 else -1), step)
+            return l
+        return l
     a, b, c = ix["s"]
     return slice(a, b, c)
+
+
+def decorate_forms(rng, op, nd):
+    """draw a spelling for every int / list index of the op (only spellings the code treats like the plain one on the
+    respective path: NumPy integer scalars everywhere; bool and 0-d arrays only where Python list indexing / the
+    all-int branch consumes them)"""
+    idx = op.get("idx")
+    if not idx or rng.chance(0.35):
+        return op
+    k = op["op"]
+    first = idx[:nd]
+    all_int_full = len(idx) >= nd and all("i" in ix for ix in first)
+    for pos, ix in enumerate(idx):
+        if "i" in ix:
+            forms = [("int", 3), ("i64", 3), ("i32", 2), ("u8", 2)]
+            if pos < nd and all_int_full and k in ("getitem", "field_get", "setitem"):
+                forms.append(("bool", 1 if ix["i"] in (0, 1) else 0))
+                if k == "setitem":
+                    forms.append(("0d", 2))
+            ix["form"] = rng.weighted(forms)
+        elif "l" in ix and ix["l"] and pos < nd:
+            # a bare tuple IS the multi-index (v[(0, 1)] = v[0, 1]): only spell a list as tuple inside an index tuple
+            bare = bool(op.get("bare")) and len(idx) == 1
+            ix["form"] = rng.weighted([("list", 3), ("lnp", 1), ("a64", 2), ("a32", 1), ("au8", 1), ("tuple", 0 if bare else 2), ("range", 2)])
+            ix.pop("np", None)
+    return op
 
 
 def to_val(w, j, nf=1):
@@ -1134,6 +1199,13 @@ class Gen:
         return pre + [op]
 
     def ops(self):
+        out = self.ops_plain()
+        for op in out:
+            if "idx" in op and op.get("v", 1 << 30) < len(self.w.vecs):
+                decorate_forms(self.rng, op, len(self.w.vecs[op["v"]].shape))
+        return out
+
+    def ops_plain(self):
         """next op(s): possibly some `alloc`s followed by one operation"""
         rng, w = self.rng, self.w
         if not w.vecs or (len(w.vecs) < 2 and rng.chance(0.3)) or (len(w.vecs) < 7 and rng.chance(0.05)):
@@ -1423,6 +1495,8 @@ def run_ops(ctx, drv, ops_iter, record, setter_rng=None):
             ctx.dist[f"target-fields:{len(before['vecs'][op['v']]['fields'])}"] += 1
         for ix in op.get("idx", []):
             ctx.dist["index:" + ("int" if "i" in ix else "slice" if "s" in ix else "list")] += 1
+            if "form" in ix:
+                ctx.dist["index-form:" + ix["form"]] += 1
         if any(c is not None for b in before["vecs"] for c in b["cells"]) or k in ("from_data", "setitem", "set_data"):
             ctx.mark(op_signature(w, before, op, res))
         if k == "field_op_gen":
